@@ -1060,9 +1060,143 @@ def check_c10(tier, seed):
         on_result=c10_oracle, release_sample=0, profiles=("release",))
 
 
+# ----------------------------------------------------------------------------------------------
+# C15: files written by earlier versions stay readable
+# ----------------------------------------------------------------------------------------------
+GOLDEN_PS = [1024, 4096, 5000, 16384]
+
+
+def file_hash(p):
+    return hashlib.sha256(open(p, "rb").read()).hexdigest()
+
+
+def check_c15(tier, seed):
+    import re
+    rep = Report("C15", tier, seed, "proof")
+    b = vlib.build(release=False)
+    gate = vlib.proof_gate("C15", b)
+    rd = RunDir()
+    failed = 0
+    rng = random.Random(seed)
+    gdir = os.path.join(vlib.ROOT, "golden")
+    expect = open(os.path.join(gdir, "expect.txt")).read().strip()
+    assert expect.startswith("open:ok ") and expect.endswith(" check:ok")
+    exp_dump = expect[len("open:ok "):-len(" check:ok")]
+    try:
+        if b.cargo_ok and b.extract_ok:
+            d = rd.sub()
+
+            def viol(what, obj):
+                nonlocal failed
+                failed += 1
+                if failed <= 3:
+                    rep.violation(what, dict(kind="golden", property="C15", **obj))
+
+            for P in GOLDEN_PS:
+                for variant in ("", ".legacy"):
+                    name = "p%d%s.db" % (P, variant)
+                    src = os.path.join(gdir, name)
+                    rep.count(name, name, True)
+                    # 1. the Gallina decoder on the golden file itself
+                    rc, out = vlib.sh([vlib.MONITOR, "inv", str(P), src])
+                    got = out.strip().split(" ", 1)[1] if " " in out.strip() else out
+                    j = got.find(" dump:")
+                    if not got.startswith("inv:ok ") or got[j + 1:] != exp_dump:
+                        viol("model decoder on golden %s: %s" % (name, got[:200]), dict(file=name, model=got[:400]))
+                    # 2. the library opens it with identical logical contents (on a copy: open may not modify it)
+                    work = os.path.join(d, name)
+                    shutil.copyfile(src, work)
+                    before = file_hash(work)
+                    rc, out = vlib.sh([vlib.harness_bin("debug"), "open-dump", work, "--pagesize", str(P)])
+                    got = out.strip().split(" ", 1)[1] if " " in out.strip() else out
+                    if got != expect:
+                        viol("library on golden %s: contents differ from what the pinned release recorded: %s" % (name, got[:160]),
+                             dict(file=name, library=got[:400], how="harness open-dump golden/%s --pagesize %d vs golden/expect.txt" % (name, P)))
+                    if file_hash(work) != before:
+                        viol("opening golden %s modified the file" % name, dict(file=name))
+                    # 3. it accepts further commits (history continues against the reference seeded with the golden contents)
+                    h = gen.H()
+                    t = h.begin(True)
+                    a = h.bucket("getb", t, 0, gen.hx("A"))
+                    n1 = h.bucket("getb", t, a, gen.hx("N1"))
+                    for i in range(rng.randrange(3, 12)):
+                        h.emit("put %d %d %s %s" % (t, rng.choice([a, n1]), gen.hx("new-%03d" % i), gen.rval(rng, [0, 16, 300, 3000])))
+                    h.emit("del %d %d %s" % (t, a, gen.hx("key-000")))
+                    h.emit("delb %d 0 %s" % (t, gen.hx("C")))
+                    h.emit("commit %d" % t)
+                    h.emit("check")
+                    h.emit("snap")
+                    t = h.begin(True)
+                    z = h.bucket("create", t, 0, gen.hx("Z"))
+                    h.emit("put %d %d %s %s" % (t, z, gen.hx("k"), "r5000:3"))
+                    h.emit("commit %d" % t)
+                    h.emit("check")
+                    h.emit("snap")
+                    h.emit("reopen")
+                    r_ = h.begin(False)
+                    ra = h.bucket("getb", r_, 0, gen.hx("A"))
+                    h.emit("get %d %d %s" % (r_, ra, gen.hx("key-000")))
+                    h.emit("get %d %d %s" % (r_, ra, gen.hx("key-002")))
+                    h.emit("get %d %d %s" % (r_, ra, gen.hx("new-001")))
+                    h.emit("buckets %d 0" % r_)
+                    h.emit("nextint %d %d" % (r_, ra))
+                    h.emit("drop %d" % r_)
+                    hp = os.path.join(d, "cont.txt")
+                    open(hp, "w").write(h.text())
+                    snapdir = os.path.join(d, "snap-" + name)
+                    os.makedirs(snapdir, exist_ok=True)
+                    rc, out = vlib.sh([vlib.harness_bin("debug"), "run", work, hp, "--pagesize", str(P), "--snapdir", snapdir], timeout=120)
+                    lines = [l for l in out.split("\n") if l and not l.startswith("hook:")]
+                    cmds = [l for l in h.text().split("\n") if l.strip()]
+                    problems = [(c, l) for c, l in zip(cmds, lines) if l.startswith("panic") or l.startswith("err:") or (l.startswith("check:") and l != "check:ok")]
+                    want_tail = ["opt:none", None, None, "items: bk:41 bk:5a", "num:%d" % (31 + sum(1 for c in cmds if c.startswith("put") and (" %d " % a) in c[:12] and "new-" in bytes.fromhex(c.split()[3]).decode(errors="replace")))]
+                    if len(lines) != len(cmds) or problems:
+                        viol("continuing on golden %s: %s" % (name, (problems[0] if problems else "process stopped after %d of %d commands" % (len(lines), len(cmds)))),
+                             dict(file=name, history=cmds, output=lines[-12:]))
+                    else:
+                        tail = lines[-6:-1]
+                        if tail[0] != "opt:none" or not tail[1].startswith("opt:kv:") or tail[3] != "items: bk:41 bk:5a":
+                            viol("continuing on golden %s: contents after two more commits are wrong: %s" % (name, [x[:60] for x in tail]), dict(file=name, output=tail))
+                        snaps = [l[5:] for l in lines if l.startswith("snap:")]
+                        rc, o2 = vlib.sh([vlib.MONITOR, "inv", str(P)] + snaps)
+                        for l in o2.split("\n"):
+                            if l.strip() and " inv:ok " not in l:
+                                viol("file committed on top of golden %s is not well-formed: %s" % (name, l.split(" ", 2)[1][:160]), dict(file=name))
+                    # 4. every mismatching page size is refused without touching the file
+                    shutil.copyfile(src, work)
+                    before = file_hash(work)
+                    for P2 in [x for x in PAGE_SIZES if x != P and x <= 65536]:
+                        rep.count("%s@%d" % (name, P2), "%s@%d" % (name, P2), True)
+                        rc, out = vlib.sh([vlib.harness_bin("debug"), "open-dump", work, "--pagesize", str(P2)])
+                        got = out.strip().split(" ", 1)[1] if " " in out.strip() else out
+                        rcm, outm = vlib.sh([vlib.MONITOR, "select", str(P2), work])
+                        refused = got.startswith("open:panic") and "pagesize" in got.lower()
+                        if not refused:
+                            viol("golden %s (page size %d) opened with page size %d is not refused: %s" % (name, P, P2, got[:160]), dict(file=name, pagesize=P2, library=got[:300]))
+                        elif "panic:pagesize" not in outm:
+                            viol("model does not refuse golden %s at page size %d: %s" % (name, P2, outm.strip()[-100:]), dict(file=name, pagesize=P2, model=outm[-300:]))
+                        if file_hash(work) != before:
+                            viol("refused open of golden %s at page size %d modified the file" % (name, P2), dict(file=name, pagesize=P2))
+                            shutil.copyfile(src, work)
+                    os.remove(work)
+        rep.cov["rule"] = ("golden files written by the pinned release (commit f5c2214) at page sizes 1024 / 4096 / 5000 / 16384 (nested buckets 3 deep, "
+                           "values up to 20000 bytes, deleted bucket and keys => non-empty free list), each also with both headers rewritten in the "
+                           "legacy format by an independent python writer (hashlib.sha3_256): the Gallina decoder (incl. its own SHA3-256) and the "
+                           "library must both find exactly the recorded contents; the library then commits twice more, every new file passes "
+                           "inv_check; every other page size of the grid must be refused (documented panic) with the file's SHA-256 unchanged; "
+                           "non-trivial = every (file, action); layout of files written by the current code: every other check decodes them")
+        rep.sample(dict(file="golden/p5000.legacy.db", actions=["decode with the model", "open + dump with the library", "2 more commits", "open at 8 wrong page sizes"]))
+        rep.cov["traces_validated_against_impl"] = rep.cov["evaluations"]
+        fill_proof_cov(rep, gate, TRUSTED_COMMON + ["golden files under /verif/golden produced once by the pinned release; tools/legacy_writer.py + python hashlib for the legacy header"])
+        gate_or_search(rep, "C15", b, gate, failed > 0)
+        return rep.finish()
+    finally:
+        rd.cleanup()
+
+
 CHECKS = {"C01": check_c01, "C02": check_c02, "C03": check_c03, "C04": check_c04, "C05": check_c05, "C06": check_c06,
           "C07": check_c07, "C08": check_c08, "C09": check_c09, "C10": check_c10, "C11": check_c11, "C12": check_c12,
-          "C13": check_c13, "C16": check_c16}
+          "C13": check_c13, "C15": check_c15, "C16": check_c16}
 
 
 def main(argv):
